@@ -7,7 +7,7 @@ import gram
 from impl import trees, grammar, grammaranalysis, grammarconst, quiet
 
 ID = "C07"
-MODULE = ['TT.Props.C07', 'TT.Props.C07More', 'TT.Props.C07Sem', 'TT.Props.C07Exact']
+MODULE = ['TT.Props.C07', 'TT.Props.C07More', 'TT.Props.C07Sem', 'TT.Props.C07Exact', 'TT.Props.C07Exact2']
 RULE = ("all canonical ordered non-deleting LCFRS rules of rank <= 4 with <= 6 (quick) / 7 (thorough) variables, plus "
         "all rules extracted from random treebanks; both reorderings; deterministic and Markov v,h in 0..3 with/without "
         "nofanout. For each rule the binarized grammar is checked: <= 2 RHS elements, chain present, chain composes "
